@@ -172,6 +172,96 @@ def inverse_claim(kind):
     return claim
 
 
+class _FakeAx:
+    """stand-in for a matplotlib Axes: the display function only hands the finished RGBA image to it"""
+    def __init__(self):
+        self.spines = {}
+
+    def imshow(self, *a, **k):
+        return None
+
+    def set(self, **k):
+        return None
+
+
+DISPLAY_CONFIGS = {
+    # label -> (norm argument, extra keyword arguments, explicit limits the configuration states (or None))
+    "manual:dict": (lambda: dict(interval_type="manual", vmin=-1.5, vmax=2.5), {}, (-1.5, 2.5)),
+    "manual:kwargs": (lambda: None, dict(vmin=-1.5, vmax=2.5), (-1.5, 2.5)),
+    "manual:config:power": (lambda: cn.NormalizationConfig(interval_type="manual", stretch_type="power", power=2.0, vmin=-1.5, vmax=2.5), {}, (-1.5, 2.5)),
+    "centered:half:dict": (lambda: dict(interval_type="centered", vcenter=0.5, half_range=2.0), {}, (-1.5, 2.5)),
+    "centered:half:config": (lambda: cn.NormalizationConfig(interval_type="centered", vcenter=0.5, half_range=2.0), {}, (-1.5, 2.5)),
+    "centered:half:config:power": (lambda: cn.NormalizationConfig(interval_type="centered", stretch_type="power", power=0.5, vcenter=0.5, half_range=2.0), {}, (-1.5, 2.5)),
+    "centered:vcenter:dict": (lambda: dict(interval_type="centered", vcenter=0.5), {}, None),
+    "quantile:kwargs": (lambda: None, dict(lower_quantile=0.1, upper_quantile=0.9), None),
+    "preset:linear_centered": (lambda: "linear_centered", {}, None),
+    "preset:power_squared": (lambda: "power_squared", {}, None),
+    "preset:power_sqrt": (lambda: "power_sqrt", {}, None),
+    "default": (lambda: None, {}, None),
+}
+
+
+def display_claim(label):
+    """the configuration as the user writes it (dict / NormalizationConfig / preset name / keyword arguments) reaches the
+    normalisation applied to the displayed amplitude: the real _show_2d_array runs on symbolic pixel values; the normalised
+    image handed to the colour mapping is captured"""
+    from unittest import mock
+
+    import quantem.core.visualization.visualization as viz
+    mk_norm, kwargs, limits = DISPLAY_CONFIGS[label]
+
+    def claim(I):
+        captured = {}
+
+        def fake_rgba(scaled, angle=None, **kw):
+            captured["y"] = scaled
+            return np.zeros((1, 2, 4))
+
+        def _get(self, nm):
+            return self.__dict__.get("_verif_" + nm)
+
+        props = {nm: property(lambda self, nm=nm: self.__dict__.get("_verif_" + nm),
+                              lambda self, v, nm=nm: self.__dict__.__setitem__("_verif_" + nm, v)) for nm in ("vmin", "vmax")}
+        real_quantile = np.quantile
+
+        def recording_quantile(values, q, *a, **k):
+            lo, hi = real_quantile(values, q, *a, **k)
+            I.values["q_lo"], I.values["q_hi"] = float(lo), float(hi)
+            return lo, hi
+
+        with I.patch(cn, viz, overrides=dict(quantile=_quantile_stub(I))), \
+                (mock.patch.object(np, "quantile", recording_quantile) if I.mode != "sym" else mock.patch.object(viz, "array_to_rgba", fake_rgba)), \
+                mock.patch.object(viz, "array_to_rgba", fake_rgba), \
+                mock.patch.object(cn.CustomNormalization, "vmin", props["vmin"]), \
+                mock.patch.object(cn.CustomNormalization, "vmax", props["vmax"]):
+            x1 = I.real("x1", -10, 10)
+            x2 = I.real("x2", -10, 10)
+            x3 = I.real("x3", -10, 10)
+            I.assume(x1 <= x2)
+            I.assume(x1 < x3)
+            if I.mode != "sym":
+                x1, x2 = sorted([x1, x2])
+                if not (x1 < x3):
+                    x3 = x1 + 1.0
+                I.values.update(x1=x1, x2=x2, x3=x3)
+            pix = [x1, x2, x3] + (list(limits) if limits else [])
+            if I.mode == "sym":
+                from ..sym.npx import lift
+                data = lift(np.array([None] + pix, dtype=object)[1:].reshape(1, -1))
+            else:
+                data = np.array(pix, dtype=float).reshape(1, -1)
+            viz._show_2d_array(data, norm=mk_norm(), figax=(None, _FakeAx()), **kwargs)
+            y = np.asarray(captured["y"]).reshape(-1)
+            rels = [Rel("displayed_range_lower", [y[0], y[1], y[2]], 0.0, op="ge"),
+                    Rel("displayed_range_upper", [y[0], y[1], y[2]], 1.0, op="le"),
+                    Rel("displayed_monotone", y[0], y[1], op="le")]
+            if limits:
+                rels += [Rel("configured_lower_limit_displayed_as_0", y[3], 0.0),
+                         Rel("configured_upper_limit_displayed_as_1", y[4], 1.0)]
+            return rels
+    return claim
+
+
 INTERVALS = ["manual", "centered:half", "centered", "quantile"]
 STRETCHES = ["linear", "power", "logarithmic", "asinh"]
 INVERSES = ["linear", "power", "log", "invlog", "asinh", "sinh"]
@@ -186,6 +276,8 @@ def cases():
         out.append((f"inverse[{k}]", inverse_claim(k)))
     for st in ("linear", "power"):        # (log / asinh with their concrete default parameter: the UF laws are too weak at the clipped end points)
         out.append((f"degenerate_interval[{st}]", degenerate_claim(st)))
+    for lab in DISPLAY_CONFIGS:
+        out.append((f"display[{lab}]", display_claim(lab)))
     return out
 
 
@@ -215,10 +307,12 @@ def run(check, tier):
     check.add_functions("BaseInterval.__call__", "ManualInterval.get_limits", "CenteredInterval.get_limits", "QuantileInterval.get_limits",
                         "LinearStretch", "PowerLawStretch", "LogarithmicStretch", "InverseLogarithmicStretch",
                         "InverseHyperbolicSineStretch", "HyperbolicSineStretch", "their .inverse", "CustomNormalization.__init__/__call__",
-                        "_resolve_normalization / NORMALIZATION_PRESETS")
+                        "_resolve_normalization / NORMALIZATION_PRESETS", "visualization._show_2d_array (configuration -> applied normalisation)")
     check.bounds.update(symbolic="vmin < vmax, data x1 <= x2 and a third value in [-10, 10], power in [0.05, 8], logarithmic a in [0.01, 2000], "
                                  "asinh a in [0.01, 10], centre in [-5, 5], half range in (0, 10]",
-                        configurations="4 interval kinds x 4 stretch kinds; 6 stretch/inverse pairs; every preset resolves to one of them")
+                        configurations="4 interval kinds x 4 stretch kinds; 6 stretch/inverse pairs; every preset resolves to one of them; "
+                                       f"{len(DISPLAY_CONFIGS)} display configurations (dict / NormalizationConfig / preset / keyword forms) on a 1x3..1x5 symbolic image")
+    check.stubs.append("display claims: array_to_rgba captures the normalised image; a stand-in Axes; matplotlib's Normalize.vmin/vmax properties store the value as given")
     check.stubs.append("np.quantile -> any pair lo < hi inside the finite data range (its contract for distinct data)")
     check.assumptions += ["log, exp, sinh, asinh, x^p are uninterpreted; only strict monotonicity, signs, f(1)/f(0) values and "
                           "f(f^-1(x)) = x are used (an unsat under fewer laws is still sound)",
@@ -226,7 +320,8 @@ def run(check, tier):
                           "on the interval object", "NaN/inf behaviour is exercised concretely (not a solver claim)"]
     check.outside += ["degenerate intervals vmin == vmax for the logarithmic / asinh stretches", "LinearStretch with non-default slope/intercept",
                       "integer input dtypes beyond the engine-X menu (six dtypes, values at the extremes and interior of the dtype, four "
-                      "Python-int limit pairs, manual interval, linear / power stretch)", "the display functions of visualization.py"]
+                      "Python-int limit pairs, manual interval, linear / power stretch)", "display functions other than _show_2d_array (show_2d grids, _show_2d_combined), complex input to the display, colour mapping / colour bars; "
+                      "display configurations with logarithmic / asinh stretches (concrete stretch parameter: the UF laws are too weak at the clipped end points)"]
     check.engines.add("symnum + z3 " + __import__("z3").get_version_string())
     presets_ok = True
     for name, mk in cn.NORMALIZATION_PRESETS.items():
